@@ -34,8 +34,10 @@ deriving DecidableEq, Repr
 def Tag.show : Tag → String
   | .csr => "csr" | .ndarray => "ndarray" | .other => "other"
 
+abbrev Chars := List Char
+
 structure Attr where
-  key : String
+  key : Chars
   tag : Tag
   payload : Nat
 deriving DecidableEq, Repr
@@ -43,31 +45,34 @@ deriving DecidableEq, Repr
 abbrev Dataset := List Attr
 
 structure File where
-  name : String
+  name : Chars
   fmt : Tag          -- npz / npy / pickle content
   payload : Nat
 deriving DecidableEq, Repr
 
 abbrev Folder := List File
 
-def endsWith (s suffix : String) : Bool := suffix.toList.isSuffixOf s.toList
+def extNpz : Chars := ['.', 'n', 'p', 'z']
+def extNpy : Chars := ['.', 'n', 'p', 'y']
+def extP : Chars := ['.', 'p']
 
 /-- the file an attribute is written to: `save_npz` / `np.save` append their extension unless it is there -/
 def fileOf (a : Attr) : File :=
   match a.tag with
-  | .csr => ⟨if endsWith a.key ".npz" then a.key else a.key ++ ".npz", .csr, a.payload⟩
-  | .ndarray => ⟨if endsWith a.key ".npy" then a.key else a.key ++ ".npy", .ndarray, a.payload⟩
-  | .other => ⟨a.key ++ ".p", .other, a.payload⟩
+  | .csr => ⟨if extNpz.isSuffixOf a.key then a.key else a.key ++ extNpz, .csr, a.payload⟩
+  | .ndarray => ⟨if extNpy.isSuffixOf a.key then a.key else a.key ++ extNpy, .ndarray, a.payload⟩
+  | .other => ⟨a.key ++ extP, .other, a.payload⟩
 
 /-- writing a file replaces a file of the same name -/
 def writeFile (fs : Folder) (f : File) : Folder := fs.filter (·.name ≠ f.name) ++ [f]
 
 /-- a key that names a file directly inside the bundle folder -/
-def plainKey (k : String) : Bool := k ≠ "" && !k.toList.contains '/'
+def plainKey (k : Chars) : Bool := k ≠ [] && !k.contains '/'
 
 /-- `save_to_numpy_bundle(data, bundle_name, data_home)` into the folder `fs` (`makedirs(exist_ok=True)`) -/
-def saveBundle (fs : Folder) (d : Dataset) : Except PyErr Folder :=
-  d.foldlM (fun fs a => if plainKey a.key then pure (writeFile fs (fileOf a)) else throw .notFound) fs
+def saveBundle (fs : Folder) : Dataset → Except PyErr Folder
+  | [] => .ok fs
+  | a :: d => if plainKey a.key then saveBundle (writeFile fs (fileOf a)) d else .error .notFound
 
 inductive SaveArg
   | matrix (square : Bool) (payload : Nat)
@@ -76,39 +81,52 @@ inductive SaveArg
 /-- `save(folder, data)`: the folder is removed first; a bare csr matrix becomes `adjacency` / `biadjacency` -/
 def save (_old : Folder) (a : SaveArg) : Except PyErr Folder :=
   match a with
-  | .matrix sq p => saveBundle [] [⟨if sq then "adjacency" else "biadjacency", .csr, p⟩]
+  | .matrix sq p => saveBundle [] [⟨if sq then "adjacency".toList else "biadjacency".toList, .csr, p⟩]
   | .dataset d => saveBundle [] d
 
-def splitDot (s : String) : List String := s.splitOn "."
+/-- `s.split(c)` -/
+def splitAtChar (d : Char) : Chars → List Chars
+  | [] => [[]]
+  | c :: cs =>
+    match splitAtChar d cs with
+    | [] => [[]]          -- unreachable: the result is never empty
+    | f :: fs => if c = d then [] :: f :: fs else (c :: f) :: fs
 
 /-- dict assignment `data[k] = v` -/
 def assign (d : Dataset) (a : Attr) : Dataset :=
   if d.any (·.key = a.key) then d.map (fun b => if b.key = a.key then a else b) else d ++ [a]
 
-/-- `load_from_numpy_bundle`: the loop over `listdir(data_path)` (`listing` = the files in the order returned) -/
-def loadBundle (listing : List File) : Except PyErr Dataset :=
-  listing.foldlM (fun d f =>
-    match splitDot f.name with
-    | [stem, ext] =>
-      if ext = "npz" then (if f.fmt = .csr then pure (assign d ⟨stem, .csr, f.payload⟩) else throw .badFile)
-      else if ext = "npy" then (if f.fmt = .ndarray then pure (assign d ⟨stem, .ndarray, f.payload⟩) else throw .badFile)
-      else if ext = "p" then (if f.fmt = .other then pure (assign d ⟨stem, .other, f.payload⟩) else throw .badFile)
-      else pure d
-    | _ => pure d) []
+/-- body of the loop of `load_from_numpy_bundle` over `listdir(data_path)` -/
+def loadStep (d : Dataset) (f : File) : Except PyErr Dataset :=
+  match splitAtChar '.' f.name with
+  | [stem, ext] =>
+    if ext = ['n', 'p', 'z'] then (if f.fmt = .csr then .ok (assign d ⟨stem, .csr, f.payload⟩) else .error .badFile)
+    else if ext = ['n', 'p', 'y'] then (if f.fmt = .ndarray then .ok (assign d ⟨stem, .ndarray, f.payload⟩) else .error .badFile)
+    else if ext = ['p'] then (if f.fmt = .other then .ok (assign d ⟨stem, .other, f.payload⟩) else .error .badFile)
+    else .ok d
+  | _ => .ok d
+
+/-- `load_from_numpy_bundle`: `listing` = the files in the order `listdir` returns them -/
+def loadFrom (d : Dataset) : List File → Except PyErr Dataset
+  | [] => .ok d
+  | f :: fs =>
+    match loadStep d f with
+    | .ok d' => loadFrom d' fs
+    | .error e => .error e
+
+def loadBundle (listing : List File) : Except PyErr Dataset := loadFrom [] listing
 
 /-- `load(folder)`; `none` = the folder does not exist -/
 def load (folder : Option (List File)) : Except PyErr Dataset :=
   match folder with
-  | none => throw .notFound
+  | none => .error .notFound
   | some l => loadBundle l
 
-def lookup (d : Dataset) (k : String) : Option (Tag × Nat) :=
+def lookup (d : Dataset) (k : Chars) : Option (Tag × Nat) :=
   (d.find? (·.key = k)).map fun a => (a.tag, a.payload)
 
 /-! ### paths (on lists of characters: every function is structurally recursive, so statements about
 concrete paths are decided by the kernel) -/
-
-abbrev Chars := List Char
 
 /-- an absolute, normalised path: the number of leading slashes (1, or 2 for `//x`) and the components -/
 structure APath where
@@ -117,12 +135,7 @@ structure APath where
 deriving DecidableEq, Repr
 
 /-- `p.split('/')` -/
-def splitSlash : Chars → List Chars
-  | [] => [[]]
-  | c :: cs =>
-    match splitSlash cs with
-    | [] => [[]]          -- unreachable: the result is never empty
-    | f :: fs => if c = '/' then [] :: f :: fs else (c :: f) :: fs
+def splitSlash (p : Chars) : List Chars := splitAtChar '/' p
 
 /-- the loop of `posixpath.normpath` for an absolute path: `acc` is `new_comps` reversed -/
 def normAux : List Chars → List Chars → List Chars
